@@ -8,7 +8,7 @@ from . import C03
 def run(ctx):
     ctx.assume("every E2 lemma treats index/slice bounds, nil dereference, explicit panic, unwinding bounds and channel operations that can never "
                "complete as obligations; every E1 lemma carries a bounds obligation per load/store against what the Go caller provides (the .bounds entries)")
-    ctx.assume("asynchronous pipeline termination: C07; traversal of deserialized tapes: C19")
+    ctx.assume("traversal of deserialized tapes: C19")
     lemma_sets_e1.stage1_lemmas(ctx, ctx.tier)
     if ctx.tier != "quick":
         lemma_sets_e1.string_lemmas(ctx, ctx.tier)
@@ -21,8 +21,11 @@ def run(ctx):
     ls += lemmas_stage2.s6_lemmas(ctx.tier)
     ls += lemmas_stage2.deep_lemmas(ctx.tier)
     run_lemmas(ctx, ls)
-    try:
+    # "without deadlocking their internal stages": the schedule lemmas of the asynchronous pipeline (Q1: no stuck configuration for
+    # any stage-1 outcome x stage-2 outcome, no ring overwrite) and G2 (the synchronous path cannot fill the channel) are C07's,
+    # run here under this id as well
+    if not ctx.only or any(o.startswith("Q1") or o == "G2" for o in ctx.only):
         from . import C07
-        C07.sync_path_cannot_block(ctx)
-    except (ImportError, AttributeError):
-        ctx.assume("G2 (the synchronous path cannot fill the index channel) is decided in C07 when available")
+        lvl = ctx.level
+        C07.run(ctx)
+        ctx.level = lvl
